@@ -88,7 +88,7 @@ def scenarios(tier):
                         torn="coarse", calls="all" if tier == "thorough" else "near500"))
     # restart with other parameters
     for variant in ("rep_max+1", "fixed_changed", "unpacked_value_changed", "unpacked_longer",
-                    "unpacked_array_other_shape"):
+                    "unpacked_array_other_shape", "param_removed", "param_added", "fixed_type_changed"):
         out.append(dict(kind="foreign", lengths={"b": 2}, rep_max=2, fmt="res", delete=False,
                         keep=["true", 0], variant=variant, budget=[1, 0, 1], torn="coarse", calls="all"))
     return out
@@ -104,6 +104,12 @@ def grid_for(sc, run_no):
             rep_max += 1
         elif v == "fixed_changed":
             pd["fixed"] = 8
+        elif v == "param_removed":
+            del pd["fixed"]
+        elif v == "param_added":
+            pd["extra"] = 5
+        elif v == "fixed_type_changed":
+            pd["fixed"] = [7, 7]
         elif v == "unpacked_value_changed":
             pd["b"] = [10, 21]
         elif v == "unpacked_longer":
@@ -374,7 +380,7 @@ def judge_foreign(sc, S, chk, case, status, dur, before_img, runner, idxs, nvar,
         return ("foreign", v, "resumed")
     changed = []
     for i in have:
-        if v == "fixed_changed":
+        if v in ("fixed_changed", "param_removed", "param_added", "fixed_type_changed"):
             changed.append(i)
         elif v == "unpacked_value_changed" and i == 1:
             changed.append(i)
